@@ -65,6 +65,10 @@ func (c *ContentTypeMismatchError) Error() string {
 	return fmt.Sprintf("content type mismatch: got %q, want %q", c.Got, c.Want)
 }
 
+// maxPrealloc is the largest content length for which a receive buffer is
+// allocated before the message body has been read.
+const maxPrealloc = 1 << 24
+
 // An hdr implements Channel. Messages sent on a hdr channel are framed as a
 // header/body transaction, similar to HTTP.
 type hdr struct {
@@ -134,6 +138,19 @@ func (h *hdr) Recv() ([]byte, error) {
 	size, err := strconv.Atoi(contentLength)
 	if err != nil || size < 0 {
 		return nil, errors.New("invalid content-length")
+	}
+
+	// Do not trust an implausibly large length enough to allocate for it up
+	// front; grow the buffer as the data actually arrive instead.
+	if size > maxPrealloc {
+		var buf bytes.Buffer
+		if _, err := io.CopyN(&buf, h.rd, int64(size)); err != nil {
+			if err == io.EOF {
+				err = io.ErrUnexpectedEOF
+			}
+			return nil, err
+		}
+		return buf.Bytes(), contentErr
 	}
 
 	// We need to use ReadFull here because the buffered reader may not have a
